@@ -7,15 +7,18 @@ import GceTcb.Proofs.TdxShapes
 import GceTcb.Proofs.TdxCompose
 import GceTcb.Proofs.TdxHob
 import GceTcb.Proofs.TdxUnsigned
+import GceTcb.Proofs.TdxGlue
+import GceTcb.Proofs.TdxIndexLimit
 /-
 C08 (TDX half) — firmware analysis is total and resource-bounded on arbitrary images:
 tdx.MRTD, tdx.UnsignedTDX, ovmf.ExtractMaterialGuestPhysicalRegions*, TDX metadata extraction.
 Quantifiers: every byte string `fw` (as `List UInt8`), every option combination, every bank list
 (`Nat` fields read as uint64, wrap-around included).  The one size hypothesis `fw.length < 2^36`
-(64 GiB) is where the code stores the TD HOB section index in an int32.
+(64 GiB) of the no-panic theorems is where the code stores the TD HOB section index in an int32;
+`C08_parse_panics_exactly` says precisely which images beyond that bound panic.
 -/
 namespace GceTcb.Props.C08Tdx
-open GceTcb GceTcb.Intervals GceTcb.TdxGuidTable GceTcb.TdxMeta GceTcb.TdxHob GceTcb.Mrtd
+open GceTcb GceTcb.Intervals GceTcb.TdxMeta GceTcb.TdxHob GceTcb.Mrtd
 
 /-! ## inventory of panic-capable expressions -/
 
@@ -36,10 +39,19 @@ theorem C08_guid_constants :
     Gen.TdxConsts.SizeofTDXMetadataDescriptor = 16 ∧ Gen.TdxConsts.SizeofTDXMetdataSection = 32 := by
   decide
 
+/-- The GUID bytes the models compare against are the regenerated GUID texts (uuid.MustParse of the
+    constants; `uuidOfString` is kernel-evaluable), including the footer GUID of the shared GUID-table
+    model. -/
+theorem C08_guid_bytes :
+    TdxMeta.tdxOffsetUuid = uuidOfString Gen.TdxConsts.TDXMetadataOffsetGUID ∧
+    TdxMeta.tdxMetadataUuid = uuidOfString Gen.TdxConsts.TDXMetadataGUID ∧
+    GuidTable.footerGuid = uuidOfString Gen.TdxConsts.FwGUIDTableFooterGUID := by
+  decide
+
 /-! ## no panic -/
 
-/-- TDX metadata extraction (GUID-table walk of the private model, offset arithmetic in uint32,
-    descriptor and section decoding, validation) never panics — no size hypothesis. -/
+/-- TDX metadata extraction (the shared GUID-table walk of Model/GuidTable.lean, offset arithmetic in
+    uint32, descriptor and section decoding, validation) never panics — no size hypothesis. -/
 theorem C08_no_panic_extract_metadata (fw : Bytes) : ¬ (extractTDXMetadata fw).isPanic :=
   extract_no_panic fw
 
@@ -48,6 +60,46 @@ theorem C08_no_panic_extract_regions (fw : Bytes) (banks : List Gpr) (hfw : fw.l
     ¬ (extractDefault fw).isPanic ∧ ¬ (extractTDHOBBug fw banks).isPanic ∧
     ¬ (extractNoUnacceptedMemory fw banks).isPanic :=
   ⟨parse_no_panic _ fw _ hfw, parse_no_panic _ fw _ hfw, parse_no_panic _ fw _ hfw⟩
+
+/-- EXACTLY when tdxFwParser.parse (all three ExtractMaterialGuestPhysicalRegions* entry points) panics,
+    with no hypothesis on the image: the metadata passes validation, its sections are pairwise
+    disjoint, and 2^31 or more section entries precede the TD_HOB section — `int32(index)` is then
+    negative and `p.Regions[tdHOBregionIndex.Value]` is out of range.  With 32 bytes per entry such
+    an image has at least 64 GiB (`C08_validated_sections`), hence the hypothesis of the theorems above
+    and below; the conversion is modelled exactly (`% 2^32 ≥ 2^31`), and SectionCount being a uint32
+    rules out an index that wraps back into range. -/
+theorem C08_parse_panics_exactly (o : ParserOpts) (fw : Bytes) (banks : List Gpr) :
+    (parse o fw banks).isPanic = true ↔
+      ∃ md, extractTDXMetadata fw = .ok md ∧ DisjointL (md.sections.map gprOf) ∧
+        2 ^ 31 ≤ md.sections.findIdx isHob :=
+  parse_panic_iff o fw banks
+
+/-- … and validation does not exclude that condition: there is metadata (2^31 empty temporary-memory
+    sections, then the TD_HOB section, then a 4 KiB boot firmware volume; a section count that fits the
+    uint32 header field) that satisfies everything validateTDXMetadataSections checks for a 4 KiB
+    firmware volume, has pairwise disjoint sections, and has its TD_HOB section at index 2^31.  So the
+    size / index hypothesis of the no-panic theorems cannot be dropped; it can only fail for images of
+    64 GiB or more (32 bytes per entry), which no run can present — the harness does not list it as a
+    finding, the theorems state it as their one hypothesis. -/
+theorem C08_index_limit_not_excluded_by_validation :
+    ∃ md : Codecs.TdxMetadata, MetaValid 4096 md ∧ DisjointL (md.sections.map gprOf) ∧
+      2 ^ 31 ≤ md.sections.findIdx isHob ∧ md.sections.length = md.header.sectionCount ∧
+      md.header.sectionCount < 2 ^ 32 :=
+  index_limit_consistent
+
+/-- No panic under the exact condition instead of a size bound: if the TD_HOB section of the image's
+    accepted metadata (if any) is among the first 2^31 entries (`IndexFits`; implied by
+    `|image| < 2^36`, `C08_index_fits_of_small`), then none of the entry points panics — the three
+    region extractions, tdx.MRTD (every hash, option combination, bank list) and tdx.UnsignedTDX. -/
+theorem C08_no_panic_index_fits (H : Bytes → Bytes) (fw : Bytes) (hidx : IndexFits fw) :
+    (∀ o banks, ¬ (parse o fw banks).isPanic) ∧ (∀ o, ¬ (mrtd H o fw).isPanic) ∧
+    (∀ early names, ¬ (unsignedTDX H Gen.TdxConsts.shapes fw early names).isPanic) :=
+  ⟨fun o banks => parse_no_panic_of_index o fw banks hidx, fun o => mrtd_no_panic_of_index H o fw hidx,
+   fun early names => unsignedTDX_no_panic' H Gen.TdxConsts.shapes (by decide) fw
+     (fun o => mrtd_no_panic_of_index H o fw hidx) early names⟩
+
+theorem C08_index_fits_of_small (fw : Bytes) (hfw : fw.length < 2 ^ 36) : IndexFits fw :=
+  indexFits_of_small fw hfw
 
 /-- tdx.MRTD, every hash, every option combination, every bank list. -/
 theorem C08_no_panic_mrtd (H : Bytes → Bytes) (o : LaunchOptions) (fw : Bytes) (hfw : fw.length < 2 ^ 36) :
@@ -93,10 +145,10 @@ theorem C08_unaccepted_measure (r p : Gpr) (hr : r.len % 2 ^ 64 ≠ 0) (h0 : ¬ 
     (shrink r (intersect r p)).len % 2 ^ 64 < r.len % 2 ^ 64 :=
   shrink_len_lt r p hr h0 h1 h2 h3
 
-/-- GUID-table walk (private model): at most |image| / 18 entries are visited. -/
-theorem C08_ticks_bound_guid_walk (fw : Bytes) (w : WalkRes) (h : getFwGuidToBlockMap fw = .ok w) :
-    18 * w.ticks ≤ fw.length :=
-  (getFwGuidToBlockMap_no_panic fw).2 w h
+/-- GUID-table walk (the shared model; the loop extractTDXMetadata runs first): at most |image| / 18 + 1
+    iterations, the failing one included. -/
+theorem C08_ticks_bound_guid_walk (fw : Bytes) : GuidTable.getFwGUIDToBlockMapTicks fw ≤ fw.length / 18 + 1 :=
+  Proofs.SnpTotal.getFwGUIDToBlockMapTicks_le fw
 
 /-- Section loop of parse, in the number n of sections (n ≤ |image| / 32): the overlap check runs at
     most n² times in total; the zero buffers requested from `make` add up to at most the memory the
@@ -115,18 +167,18 @@ theorem C08_parse_loop_bounds (ma : Bool) (fw : Bytes) (md : Codecs.TdxMetadata)
     52-bit physical address space; the declared sizes add up to at most 4 GiB.  This is the justified
     constant cap behind the listed finding: everything below is bounded by it, not by the image size. -/
 theorem C08_declared_memory_bound (o : ParserOpts) (fw : Bytes) (banks : List Gpr) (regions : List Region)
-    (hfw : fw.length < 2 ^ 36) (h : parse o fw banks = .ok regions) :
+    (h : parse o fw banks = .ok regions) :
     (∀ r ∈ regions, r.gpr.start + r.gpr.len ≤ 2 ^ 52) ∧
     (regions.map (·.gpr.len)).sum ≤ 4 * 1024 * 1024 * 1024 ∧ 32 * regions.length ≤ fw.length :=
-  parse_ok_facts o fw banks regions hfw h
+  parse_ok_facts o fw banks regions h
 
 /-- tdx.MRTD, iterations of the InitMemoryRegion loops over all regions: the sum of Length/256, at most
     2^24 (= 4 GiB / 256) — a constant cap that does NOT depend on the image size (listed finding D5f);
     each iteration hashes at most 128 + 384 bytes. -/
 theorem C08_ticks_bound_mrtd (o : ParserOpts) (fw : Bytes) (banks : List Gpr) (regions : List Region)
-    (hfw : fw.length < 2 ^ 36) (h : parse o fw banks = .ok regions) :
+    (h : parse o fw banks = .ok regions) :
     (regions.map (fun r => r.gpr.len / 256)).sum ≤ 2 ^ 24 := by
-  have h2 := (parse_ok_facts o fw banks regions hfw h).2.1
+  have h2 := (parse_ok_facts o fw banks regions h).2.1
   have e : regions.map (fun r => r.gpr.len / 256) = (regions.map (·.gpr.len)).map (· / 256) := by
     rw [List.map_map]; rfl
   rw [e]
